@@ -43,6 +43,9 @@ BigLens == {DefaultCap - 1, DefaultCap, DefaultCap + 1, 2 * DefaultCap + 1}
 ----------------------------------------------------------------------------
 (* Method events on receiver id with n elements; operands from Ops (ids).   *)
 
+\* the nil Go slice: an empty array like any other (the same abstract object)
+NilArr(ec) == {E("GoArray", "NewNil", 0, <<>>, ec)}
+
 SeqReadEv(k, id) == {E(k, m, id, <<>>, "") : m \in {"AsArray", "GetIterator", "GetSize", "IsEmpty"}}
 
 AccessEv(k, id, n) ==
@@ -97,7 +100,7 @@ ListBinary(w) ==
 
 EventsList(w) ==
     CASE Len(w) = 0 -> {E("List", "Make", 0, <<>>, "V")} \cup {E("Array", "Make", 0, <<n>>, "V") : n \in 0..MaxLen}
-      [] Len(w) = 1 -> ListUnary(w) \cup {E("GoArray", "New", 0, <<l>>, "V") : l \in Lits}
+      [] Len(w) = 1 -> ListUnary(w) \cup {E("GoArray", "New", 0, <<l>>, "V") : l \in Lits} \cup NilArr("V")
       [] Len(w) = 2 /\ w[2].kind = "GoArray" /\ Len(w[2].s) <= MaxLit ->
             {E(kk, "MakeFromArray", 0, <<2>>, "V") : kk \in {"List", "Array"}}
       [] Len(w) = 3 /\ w[2].kind = "GoArray" /\ w[3].kind \in {"List", "Array"} -> ListBinary(w)
@@ -140,7 +143,7 @@ SetBinary(w) ==
 EventsSet(w) ==
     CASE Len(w) = 0 -> {E("Set", "Make", 0, <<>>, "V")} \cup
                        {E("Set", "MakeWithCollator", 0, <<c>>, "V") : c \in {"nat", "rev", "coarse"}}
-      [] Len(w) = 1 -> SetUnary(w) \cup {E("GoArray", "New", 0, <<l>>, "V") : l \in Lits}
+      [] Len(w) = 1 -> SetUnary(w) \cup {E("GoArray", "New", 0, <<l>>, "V") : l \in Lits} \cup NilArr("V")
       [] Len(w) = 2 /\ w[2].kind = "GoArray" /\ Len(w[2].s) <= MaxLit ->
             {E(kk, "MakeFromArray", 0, <<2>>, "V") : kk \in {"List", "Array"}}
       [] Len(w) = 3 /\ w[2].kind = "GoArray" /\ w[3].kind \in {"List", "Array"} -> SetBinary(w)
@@ -165,7 +168,7 @@ EventsAlgebra(w) ==
 EventsStack(w) ==
     CASE Len(w) = 0 -> {E("Stack", "Make", 0, <<>>, "V")} \cup
                        {E("Stack", "MakeWithCapacity", 0, <<c>>, "V") : c \in 0..MaxLen} \cup
-                       {E("GoArray", "New", 0, <<l>>, "V") : l \in SeqsUpTo({1, 2}, MaxLen) \cup {Pattern(n) : n \in BigLens}}
+                       {E("GoArray", "New", 0, <<l>>, "V") : l \in SeqsUpTo({1, 2}, MaxLen) \cup {Pattern(n) : n \in BigLens}} \cup NilArr("V")
       [] Len(w) = 1 /\ w[1].kind = "GoArray" ->
             {E("Stack", "MakeFromArray", 0, <<1>>, "V"), E("List", "MakeFromArray", 0, <<1>>, "V")}
       [] Len(w) = 2 /\ w[2].kind = "List" -> {E("Stack", "MakeFromSequence", 0, <<2>>, "V")}
@@ -201,6 +204,13 @@ AssocUnaryAt(k, r) ==
            (IF Family = "catalogfn" THEN {E("Catalog", "Merge", 0, <<r, r>>, "A")} ELSE {})
       ELSE {}))
 
+\* receivers built by the other constructors: one change each (costly step)
+AssocMutOther(k, w) ==
+    LET r == Len(w) IN
+    IF Family \in {"catalog", "map"} /\ r \in {4, 5} /\ w[r].kind = k /\ w[1].s = <<>>
+    THEN {E(k, "SetValue", r, <<t, 1>>, "") : t \in Toks} \cup {E(k, "RemoveValue", r, <<t>>, "") : t \in Toks}
+    ELSE {}
+
 AssocBinaryAt(k, r) ==
     {E(k, m, r, <<2>>, "") : m \in {"GetValues", "RemoveValues"}} \cup
     (IF Family = "catalogfn" THEN {E("Catalog", "Extract", 0, <<r, 2>>, "A")} ELSE {})
@@ -209,8 +219,9 @@ EventsAssoc(k, w) ==
     CASE Len(w) = 0 -> {E("GoArray", "New", 0, <<l>>, "K") : l \in Lits}
       [] Len(w) = 1 -> {E("List", "MakeFromArray", 0, <<1>>, "K")}
       [] Len(w) = 2 -> {E(k, "Make", 0, <<>>, "A")} \cup
-                       (IF w[1].s = <<>> THEN {E("GoArray", "New", 0, <<l>>, "A") : l \in CodeLits} \cup
-                                              {E("GoMap", "New", 0, <<l>>, "") : l \in PairLits}
+                       (IF w[1].s = <<>> THEN {E("GoArray", "New", 0, <<l>>, "A") : l \in CodeLits} \cup NilArr("A") \cup
+                                              {E("GoMap", "New", 0, <<l>>, "") : l \in PairLits} \cup
+                                              {E("GoMap", "NewNil", 0, <<>>, "")}
                         ELSE {})
       [] \/ Len(w) = 3 /\ w[3].kind = k
          \/ Len(w) = 4 /\ w[3].kind \in {"GoArray", "GoMap"} /\ w[4].kind = k
@@ -418,9 +429,9 @@ EvSets(w) ==
       [] Family = "set"      -> << EventsSet(w) >>
       [] Family = "algebra"  -> << EventsAlgebra(w) >>
       [] Family = "stack"    -> << EventsStack(w) >>
-      [] Family \in {"catalog", "catalogfn"} -> << EventsAssoc("Catalog", w) >>
+      [] Family \in {"catalog", "catalogfn"} -> << EventsAssoc("Catalog", w), Costly(AssocMutOther("Catalog", w)) >>
       [] Family = "concat"   -> << EventsConcat(w), Costly(ConcatMut(w)) >>
-      [] Family = "map"      -> << EventsAssoc("Map", w) >>
+      [] Family = "map"      -> << EventsAssoc("Map", w), Costly(AssocMutOther("Map", w)) >>
       [] Family = "merge"    -> << EventsMerge(w), Costly(MergeMut(w)) >>
       [] Family = "queueseq" -> << EventsQueueSeq(w) >>
       [] Family = "extract"  -> << EventsExtract(w), Costly(ExtractMut(w)) >>
